@@ -55,8 +55,15 @@ class FakeNet:
         self.cur = self.conns.pop(0)
         self.cur["_socks"] = []
         self.opened.append(self.cur["_socks"])
-        return [(real_socket.AF_INET, real_socket.SOCK_STREAM, 6, "", (f"10.0.0.{i + 1}", port))
-                for i in range(len(self.cur["addrs"]))]
+        fams = self.cur.get("fams")      # optional address families, "4" / "6" per address, in resolver order
+        out = []
+        for i in range(len(self.cur["addrs"])):
+            if fams and fams[i] == "6":
+                out.append((real_socket.AF_INET6, real_socket.SOCK_STREAM, 6, "", (f"fd00::{i + 1}", port, 0, 0)))
+            else:
+                out.append((real_socket.AF_INET, real_socket.SOCK_STREAM, 6, "", (f"10.0.0.{i + 1}", port)))
+        self.resolved_addrs = getattr(self, "resolved_addrs", []) + [[a[4][0] for a in out]]
+        return out
 
     def socket(self, *a, **k):
         i = len(self.cur["_socks"])
